@@ -179,7 +179,7 @@ class TypeScriptStringConcatAnalyzer(TypeScriptBaseAnalyzer):
     def _find_value_after_operator(self, children: list[Node], operator_idx: int) -> Node | None:
         """Find the first non-identifier value after the operator."""
         for child in children[operator_idx + 1 :]:
-            if child.type != "identifier":
+            if child.type not in ("identifier", "comment"):  # a comment may sit before the value
                 return child
         return None
 
